@@ -75,6 +75,7 @@ class Case:
             pool.append((g.fresh("value"), lit))
         self.pool = pool
         self.values = dict(pool)
+        self.typed = {nm: g.fresh("type") for nm, lit in pool if lit[0] == "i" and r.chance(1, 4)}
         for nm, lit in pool:
             if lit[0] == "i":
                 g.int_refs.append((nm, lit[1]))
@@ -99,6 +100,10 @@ class Case:
     def vr_item(self, nm):
         lit = self.values[nm]
         ty = {"i": INT, "b": ("bool",), "s": ("str", "utf8", ("any",)), "o": ("oct", ("any",))}[lit[0]]
+        if lit[0] == "i" and nm in self.typed:
+            # `Count ::= INTEGER (..)`, `nm Count ::= 40`: declared with a user-defined integer type
+            # (the type name is not defined in the module: the resolver never looks at it)
+            ty = ("ref", self.typed[nm])
         return ("vr", nm, ty, lit)
 
     def decoy(self, nm):
